@@ -40,7 +40,7 @@ var MutationKinds = []string{
 	"ref-field-type", "ref-arg-type", "ref-inputfield-type", "ref-dirarg-type", "ref-union-member", "ref-interface", "ref-directive-on-type", "ref-directive-on-field", "ref-directive-on-enumvalue", "ref-directive-with-modifier",
 	// R2 names unique, well-formed, not reserved
 	"dup-type", "dup-field", "dup-arg", "dup-enum-value", "dup-input-field", "dup-directive",
-	"reserved-type", "reserved-field", "reserved-arg", "reserved-enum-value", "reserved-input-field", "reserved-directive", "reserved-field-on-extended-builtin", "reserved-arg-on-extended-builtin", "digit-type-name", "digit-field-name", "enum-value-keyword", "schema-unknown-operation",
+	"reserved-type", "reserved-field", "reserved-arg", "reserved-enum-value", "reserved-input-field", "dup-type-of-scalar", "reserved-directive", "reserved-field-on-extended-builtin", "reserved-arg-on-extended-builtin", "digit-type-name", "digit-field-name", "enum-value-keyword", "schema-unknown-operation",
 	// R3 output / input positions
 	"field-returns-input", "arg-takes-output", "inputfield-takes-output", "dirarg-takes-output", "schema-root-input-type",
 	// R4 interface conformance
@@ -51,7 +51,7 @@ var MutationKinds = []string{
 	"empty-object", "empty-interface", "empty-enum", "empty-input",
 	// R7 directive uses
 	"dir-wrong-location-type", "dir-wrong-location-enumvalue", "dir-wrong-location-field", "dir-wrong-location-arg", "dir-wrong-location-inputfield",
-	"dir-unknown-arg-type", "dir-unknown-arg-field", "dir-uncoercible-arg-type", "dir-uncoercible-arg-field", "dir-uncoercible-arg-enumvalue", "dir-uncoercible-arg-null", "dir-uncoercible-arg-input-field", "dir-unknown-arg-noargs",
+	"dir-unknown-arg-type", "dir-unknown-arg-field", "dir-uncoercible-arg-type", "dir-uncoercible-arg-field", "dir-uncoercible-arg-enumvalue", "dir-uncoercible-arg-null", "dir-uncoercible-arg-input-field", "dir-unknown-arg-noargs", "dir-wrong-location-dirarg-nodefault", "dir-unknown-arg-dirarg-nodefault",
 	// R8 directive definition cycles
 	"dir-cycle-self", "dir-cycle-two", "dir-cycle-lasso", "ref-directive-named-like-type", "schema-ext-dir-no-roots", "iface-shared-field-second-unsatisfied",
 }
@@ -559,6 +559,25 @@ func Mutate(t *rapid.T, base *hx.Schema, kind string) (s *hx.Schema, m Mutation,
 	case "reserved-arg-on-extended-builtin":
 		m.Tail = "extend type " + []string{"__Type", "__Field", "__InputValue"}[pick(3, "builtin")] + " { origin(__raw: Boolean): String }"
 		m.Names, m.Position = []string{"__raw"}, "argument"
+	case "dup-type-of-scalar":
+		// a definition of another kind under the name of a scalar the schema has already
+		name := []string{"Time", "ID", "Int64", "String"}[pick(4, "scalar")]
+		for _, td := range s.Types {
+			if td.Kind == hx.KScalar && pick(2, "custom"+td.Name) == 0 {
+				name = td.Name
+				break
+			}
+		}
+		m.Tail = []string{"type %s { a: Int }", "input %s { a: Int }", "enum %s { A }", "interface %s { a: Int }"}[pick(4, "kind")]
+		m.Tail = fmt.Sprintf(m.Tail, name)
+		m.Names, m.Position = []string{name}, "type"
+	case "dir-wrong-location-dirarg-nodefault":
+		// a use on an argument of a directive definition that has no default value
+		m.Tail = "directive @zqOnObj on OBJECT\ndirective @zqHost(a: Int @zqOnObj, b: Int = 1) on SCALAR"
+		m.Names, m.Position = []string{"zqOnObj"}, "directive-argument"
+	case "dir-unknown-arg-dirarg-nodefault":
+		m.Tail = "directive @zqArgd(x: Int) on ARGUMENT_DEFINITION\ndirective @zqHost(a: [Int] @zqArgd(nope: 1)) on SCALAR"
+		m.Names, m.Position = []string{"nope", "zqArgd"}, "directive-argument"
 	case "union-empty":
 		m.Tail = "union Uempty ="
 		m.Names, m.Position = []string{"Uempty"}, "union"
